@@ -122,6 +122,14 @@ let () =
         let x = int_of_nat x and kk = int_of_nat kk in
         if x < maxid && kk < Array.length ptab.(x) then ptab.(x).(kk) else [] in
       let ops = List.filter (fun s -> s <> "") (String.split_on_char ';' body) in
+      if Sys.getenv_opt "PULSE_SAFE" = Some "1" then begin
+        (* classification only: does the history keep every GetPulseTime() callback off the recalculation stack? *)
+        let s = ref (Some init_state) in
+        List.iter (fun o -> match !s with
+          | None -> ()
+          | Some st -> s := step_s gt pl fuel st (parse_top o)) ops;
+        Printf.printf "%d %s\n" k (if !s = None then "UNSAFE" else "SAFE")
+      end else
       let buf = Buffer.create 1024 in
       let s = ref init_state in
       let out_of_fuel = ref false in
